@@ -165,13 +165,25 @@ Definition li_alphabet : list char := safe_alphabet ++ [dash].
 Lemma li_line_blocks : forallb (fun d => never_matches li_alphabet [dash] (re_ast (l_re d))) lineblocks_defs = true.
 Proof. vm_compute. reflexivity. Qed.
 
-Lemma li_stage_line fuel item s : li_item_ok item -> lineblocks_render fuel [li_line item] [] s = Ok ((None, [li_line item]), s).
+Lemma lineblocks_loop_none_rest fuel l rest s : forall defs,
+  (forall d, In d defs -> re_search (l_re d) l = None) ->
+  lineblocks_loop fuel defs (l :: rest) [] s = Ok ((None, l :: rest), s).
 Proof.
-  intros [Hitem _]. unfold lineblocks_render. apply lineblocks_loop_none. intros d Hd.
+  induction defs as [|d ds IH]; intros H; cbn [lineblocks_loop]; [reflexivity|].
+  cbn [andb]. rewrite (H d (or_introl eq_refl)). apply IH. intros d' Hd'. apply H. right. exact Hd'.
+Qed.
+
+Lemma li_stage_line_rest fuel item rest s : li_item_ok item ->
+  lineblocks_render fuel (li_line item :: rest) [] s = Ok ((None, li_line item :: rest), s).
+Proof.
+  intros [Hitem _]. unfold lineblocks_render. apply lineblocks_loop_none_rest. intros d Hd.
   pose proof li_line_blocks as H. rewrite forallb_forall in H. specialize (H d Hd).
   unfold li_line. eapply never_matches_sound; [exact H|left; reflexivity|].
   unfold li_alphabet. intros x [<-|[<-|Hx]]; apply in_or_app; [right; left; reflexivity|left; vm_compute; intuition|left; auto].
 Qed.
+
+Lemma li_stage_line fuel item s : li_item_ok item -> lineblocks_render fuel [li_line item] [] s = Ok ((None, [li_line item]), s).
+Proof. apply li_stage_line_rest. Qed.
 
 (* ---- the list path ---- *)
 Lemma pending_set_listids s v : pending_empty s -> pending_empty (set_listids s v).
@@ -322,6 +334,93 @@ Proof.
   unfold bind at 1. unfold reader, str, char in *. rewrite E1.
   cbn [gets s_listids set_listids ret bind]. reflexivity.
 Qed.
+(* ---- two items with the same marker ---- *)
+Lemma cba_item n item rest s : li_item_ok item ->
+  consumeBlockAttributes fuel (S n) (li_line item :: rest) 0%Z [] s = Ok ((0%Z, [], li_line item :: rest), s).
+Proof.
+  intros [Hitem _]. cbn [consumeBlockAttributes]. unfold bind at 1.
+  assert (Hl : lineblocks_render fuel (li_line item :: rest) lists_allowed_attrs s = Ok ((None, li_line item :: rest), s)).
+  { unfold lineblocks_render.
+    assert (G : forall defs, (forall d, In d defs -> re_search (l_re d) (li_line item) = None) ->
+                lineblocks_loop fuel defs (li_line item :: rest) lists_allowed_attrs s = Ok ((None, li_line item :: rest), s)).
+    { induction defs as [|d ds IH]; intros H; cbn [lineblocks_loop]; [reflexivity|].
+      destruct (_ && _); [apply IH; intros d' Hd'; apply H; right; exact Hd'|].
+      rewrite (H d (or_introl eq_refl)). apply IH. intros d' Hd'. apply H. right. exact Hd'. }
+    apply G. intros d Hd. pose proof li_line_blocks as H. rewrite forallb_forall in H. specialize (H d Hd).
+    unfold li_line. eapply never_matches_sound; [exact H|left; reflexivity|].
+    unfold li_alphabet. intros x [<-|[<-|Hx]]; apply in_or_app; [right; left; reflexivity|left; vm_compute; intuition|left; auto]. }
+  rewrite Hl. cbn [nonempty is_empty negb li_line]. reflexivity.
+Qed.
+
+Lemma matchItem_item item rest s : li_item_ok item ->
+  exists m, m_groups m = [Some (li_line item); Some [dash]; Some item] /\
+            matchItem (li_line item :: rest) s = Ok ((Some (mkItem m ul_def [dash]), li_line item :: rest), s).
+Proof.
+  intros Hitem. destruct (li_match item Hitem) as (m & Hm & Hg). exists m. split; [exact Hg|].
+  destruct ul_facts as (_ & _ & _ & _ & _ & Fng & _ & _ & Fdefs).
+  unfold matchItem. rewrite Fdefs. cbn [matchItem_loop]. fold ulre. rewrite Hm.
+  unfold grp0, grp_s, grp. rewrite Hg. cbn [nth li_line]. replace (dash =? 92) with false by reflexivity.
+  rewrite Fng. cbn [Nat.sub nth ret]. reflexivity.
+Qed.
+
+Lemma renderListItem_first n item1 item2 m1 s : li_item_ok item1 -> li_item_ok item2 -> defaults (ienv_of s) -> pending_empty s ->
+  s_listids s = [[dash]] -> m_groups m1 = [Some (li_line item1); Some [dash]; Some item1] ->
+  exists m2, m_groups m2 = [Some (li_line item2); Some [dash]; Some item2] /\
+  renderListItem fuel doc (S (S (S n))) (mkItem m1 ul_def [dash]) [li_line item1; li_line item2] s =
+  Ok (($"<li>" ++ escape item1 ++ $"</li>", Some (mkItem m2 ul_def [dash]), [li_line item2]), s).
+Proof.
+  intros Hi1 Hi2 Hd Hp Hids Hg. pose proof Hi1 as [_ (c & t & Ei & Hc & Hl)].
+  destruct (matchItem_item item2 [] s Hi2) as (m2 & Hg2 & Hm2). exists m2. split; [exact Hg2|].
+  destruct ul_facts as (Fo & Fc & Fio & Fic & Fto & Fng & _).
+  rewrite renderListItem_unfold. cbv zeta. cbn [it_def it_m]. rewrite Fto. cbn [nonempty is_empty negb].
+  unfold bind at 1. cbn [ret]. unfold bind at 1. rewrite Fio.
+  change ($"<li>") with (60 :: $"li>"). rewrite inject_nothing_pending by exact Hp.
+  unfold item_text. cbn [it_m it_def]. fold ulre. rewrite Fng. unfold grp at 1. rewrite Hg. cbn [nth].
+  cbn [tl]. unfold bind at 1.
+  assert (Hloop : itemLoop fuel doc (S (S n)) [li_line item2] (item1 ++ [10]) [] false s =
+                  Ok ((Some (mkItem m2 ul_def [dash]), [li_line item2], item1 ++ [10], [] ++ []), s)).
+  { cbn [itemLoop]. unfold bind at 1. rewrite (cba_item n item2 [] s Hi2). cbn [orb Z.leb Z.eqb Z.compare].
+    unfold bind at 1. unfold reader, str, char in *. rewrite Hm2. cbn [it_id].
+    unfold bind at 1. cbn [gets]. rewrite Hids. replace (mem [dash] [[dash]]) with true by reflexivity. reflexivity. }
+  unfold reader, str, char in *. rewrite Hloop.
+  cbn [ret]. unfold bind at 1. unfold lift.
+  pose proof (strip_item item1 c t Ei Hc Hl) as Hs. unfold reader, str, char in Hs. rewrite Hs.
+  pose proof (inline_item fuel' (ienv_of s) item1 Hd Hi1) as Hin. unfold list_expand in Hin. fold fuel in Hin.
+  unfold reader, str, char in Hin. rewrite Hin.
+  cbn [iret log_msgs bind ret]. rewrite Fic. rewrite app_nil_l. reflexivity.
+Qed.
+
+Lemma renderList_two n item1 item2 m1 s : li_item_ok item1 -> li_item_ok item2 -> defaults (ienv_of s) -> pending_empty s ->
+  s_listids s = [] -> m_groups m1 = [Some (li_line item1); Some [dash]; Some item1] ->
+  renderList fuel doc (S (S (S (S (S (S n)))))) (mkItem m1 ul_def [dash]) [li_line item1; li_line item2] s =
+  Ok (($"<ul>" ++ (($"<li>" ++ escape item1 ++ $"</li>") ++ ($"<li>" ++ escape item2 ++ $"</li>")) ++ $"</ul>", None, []), s).
+Proof.
+  intros Hi1 Hi2 Hd Hp Hids Hg. destruct ul_facts as (Fo & Fc & _).
+  rewrite renderList_unfold. cbn [it_id it_def]. unfold bind at 1. cbn [modify]. rewrite Hids. cbn [app].
+  assert (Hp1 : pending_empty (set_listids s [[dash]])) by exact Hp.
+  assert (Hd1 : defaults (ienv_of (set_listids s [[dash]]))) by exact Hd.
+  unfold bind at 1. rewrite Fo. change ($"<ul>") with (60 :: $"ul>"). rewrite inject_nothing_pending by exact Hp1.
+  unfold bind at 1. rewrite renderItems_unfold. unfold bind at 1.
+  destruct (renderListItem_first (S n) item1 item2 m1 (set_listids s [[dash]]) Hi1 Hi2 Hd1 Hp1 eq_refl Hg) as (m2 & Hg2 & E1).
+  unfold reader, str, char in *. rewrite E1. cbn [it_id str_eqb N.eqb Pos.eqb andb dash].
+  unfold bind at 1. rewrite renderItems_unfold. unfold bind at 1.
+  pose proof (renderListItem_single n item2 m2 (set_listids s [[dash]]) Hi2 Hd1 Hp1 Hg2) as E2.
+  unfold reader, str, char in *. rewrite E2. cbn [ret].
+  unfold bind at 1. unfold pop_listid. unfold bind at 1. cbn [gets s_listids set_listids frev rev_append modify].
+  rewrite Fc. f_equal. f_equal. destruct s; cbn in *; subst; reflexivity.
+Qed.
+
+Lemma lists_render_two n item1 item2 s : li_item_ok item1 -> li_item_ok item2 -> defaults (ienv_of s) -> pending_empty s ->
+  lists_render fuel doc (S (S (S (S (S (S n)))))) [li_line item1; li_line item2] s =
+  Ok ((Some ($"<ul>" ++ (($"<li>" ++ escape item1 ++ $"</li>") ++ ($"<li>" ++ escape item2 ++ $"</li>")) ++ $"</ul>"), []), set_listids s []).
+Proof.
+  intros Hi1 Hi2 Hd Hp. destruct (matchItem_item item1 [li_line item2] s Hi1) as (m1 & Hg1 & Hm1).
+  unfold lists_render. unfold bind at 1. unfold reader, str, char in *. rewrite Hm1.
+  unfold bind at 1. cbn [modify]. unfold bind at 1.
+  pose proof (renderList_two n item1 item2 m1 (set_listids s []) Hi1 Hi2 Hd Hp eq_refl Hg1) as E1.
+  unfold reader, str, char in *. rewrite E1.
+  cbn [gets s_listids set_listids ret bind]. reflexivity.
+Qed.
 End ListRun.
 
 (* ---- the document ---- *)
@@ -370,6 +469,49 @@ Proof.
   - unfold li_line. cbn [skipBlankLines]. rewrite strip_nonblank; reflexivity.
   - apply li_stage_line. exact Hitem.
   - apply (lists_render_single (S (S (S n))) _ n item s Hitem (quiet_defaults s Hq) Hp).
+Qed.
+
+(* ---- two items ---- *)
+Lemma li_line_chars item : li_item_ok item -> forall x, In x (li_line item) -> is_nl x = false /\ reserved x = false.
+Proof.
+  intros [Hitem _] x [<-|[<-|Hx]]; [split; reflexivity|split; reflexivity|]. apply Hitem in Hx.
+  pose proof safe_no_special as F. rewrite forallb_forall in F. apply F in Hx. apply andb_prop in Hx as [H1 H2].
+  apply negb_true_iff in H1, H2. auto.
+Qed.
+
+Lemma li_reader2 item1 item2 : li_item_ok item1 -> li_item_ok item2 ->
+  mk_reader (li_line item1 ++ 10 :: li_line item2) = [li_line item1; li_line item2].
+Proof.
+  intros H1 H2. rewrite mk_reader_spec.
+  assert (Hb : blank_reserved (li_line item1 ++ 10 :: li_line item2) = li_line item1 ++ 10 :: li_line item2).
+  { unfold blank_reserved. rewrite <- (map_id (li_line item1 ++ 10 :: li_line item2)) at 2. apply map_ext_in. intros x Hx.
+    assert (Hr : reserved x = false).
+    { apply in_app_or in Hx as [Hx|[<-|Hx]]; [apply (li_line_chars item1 H1 x Hx)|reflexivity|apply (li_line_chars item2 H2 x Hx)]. }
+    unfold reserved in Hr. rewrite Hr. reflexivity. }
+  rewrite Hb. unfold split_lines.
+  rewrite (split_aux_prefix (li_line item1) (10 :: li_line item2) [] (fun x Hx => proj1 (li_line_chars item1 H1 x Hx))).
+  cbn [split_lines_aux]. rewrite split_aux_nil_cur_frev.
+  pose proof (split_aux_prefix (li_line item2) [] [] (fun x Hx => proj1 (li_line_chars item2 H2 x Hx))) as E. rewrite app_nil_r in E.
+  rewrite E. cbn [split_lines_aux]. rewrite split_aux_nil_cur_frev. reflexivity.
+Qed.
+
+Theorem two_item_list_document n item1 item2 s : quiet_default s -> li_item_ok item1 -> li_item_ok item2 ->
+  doc_render (S (S (S (S (S (S (S (S n)))))))) (li_line item1 ++ 10 :: li_line item2) s =
+  Ok ($"<ul><li>" ++ escape item1 ++ $"</li><li>" ++ escape item2 ++ $"</li></ul>", set_listids s []).
+Proof.
+  intros Hq Hi1 Hi2. pose proof Hq as (Hd & Hr & Hqt & Hp & Ho).
+  change (doc_render (S (S (S (S (S (S (S (S n)))))))) (li_line item1 ++ 10 :: li_line item2)) with
+    (doc_loop (S (S (S (S (S (S (S n))))))) (doc_render (S (S (S (S (S (S (S n)))))))) (S (S (S (S (S (S (S n)))))))
+       (mk_reader (li_line item1 ++ 10 :: li_line item2))).
+  rewrite (li_reader2 item1 item2 Hi1 Hi2).
+  rewrite (doc_loop_list_block _ _ (S (S (S (S (S (S n)))))) [li_line item1; li_line item2] (li_line item1) [li_line item2]
+             [li_line item1; li_line item2]
+             ($"<ul>" ++ (($"<li>" ++ escape item1 ++ $"</li>") ++ ($"<li>" ++ escape item2 ++ $"</li>")) ++ $"</ul>") [] s s (set_listids s [])).
+  - rewrite (TableFacts.doc_loop_blank_only _ _ (S (S (S (S (S n))))) [] (set_listids s [])) by reflexivity.
+    rewrite app_nil_r. cbn [app]. rewrite <- !app_assoc. cbn [app]. reflexivity.
+  - unfold li_line at 1. cbn [skipBlankLines]. rewrite strip_nonblank; reflexivity.
+  - pose proof (li_stage_line_rest (S (S (S (S (S (S (S n))))))) item1 [li_line item2] s Hi1) as E. exact E.
+  - apply (lists_render_two (S (S (S (S n)))) _ n item1 item2 s Hi1 Hi2 (quiet_defaults s Hq) Hp).
 Qed.
 
 (* ---- the same through rimu.render, whatever the option values of the call do to the session first ---- *)
